@@ -66,3 +66,31 @@ class Lint:
 
     def post(obj):
         return False   # the command never returns normally: it always exits through sys.exit
+
+
+# ---- lint-file ---------------------------------------------------------------------------------------------------------
+from contracts.report import subset_reports_anything
+
+fmt_lines_subset = ufun("fmt_lines_subset", ["ProjectSubsetReport"], "str")
+
+
+@contract("reuse.lint.format_lines_subset", serves=["C13"], assumed=True,
+          why="content of the lines is checked by the bounded formatter-agreement check; here only its frame: it reads the report")
+class FormatLinesSubset:
+    types = {"report": "ProjectSubsetReport", "return": "str"}
+
+
+@contract("reuse.cli.lint_file.lint_file", serves=["C13"])
+class LintFile:
+    types = {"obj": "ClickObj", "quiet": "bool", "lines": "bool", "files": "set[Path]"}
+    raises = {SystemExit: None, click.UsageError: None, KeyboardInterrupt: None}
+    modifies = ["ClickObj._project@obj"]
+
+    # C13: lint-file exits 1 iff it reported any problem (0 otherwise), whichever output option is chosen
+    exc_post = {SystemExit: lambda obj, report, exc_code: (
+        (exc_code == 0) == (not subset_reports_anything(report)) and (exc_code == 0 or exc_code == 1))}
+
+    def post(obj):
+        return False
+
+    loops = {0: LoopSpec(inv=lambda subset_files: True)}
